@@ -129,6 +129,9 @@ def c07(ctx):
                         metas.append({"kind": "real", "blen": blen, "nl": nlstyle, "framing": framing, "layout": lay[:10],
                                       "prog": prog, "ncuts": len(cuts), "cuts": cuts[:20], "trailers": bool(trailers),
                                       "method": method.decode()})
+    # (P) the same through the workers' connection handling: the rest of a body the application did not read arrives
+    # after the response (keep-alive connection handed back to the poller / the handler loop in between)
+    worker_level(ctx, traces, metas)
     verdicts, stats = tlc.validate_batch("BodyTrace", "BodyTrace.cfg", traces, name="BodyTrace_C07", chunk=3000)
     ctx.add_traces(len(traces), stats)
     for t, m, (v, step) in zip(traces, metas, verdicts):
@@ -141,6 +144,47 @@ def c07(ctx):
         ctx.sample({"blen": t["blen"], "events": t["ev"][:6], "meta": {k: m[k] for k in m if k not in ("body", "cuts")}})
     ctx.assumptions += ["bodies have position-dependent content; 'contig' (returned bytes == body slice at the running position) is computed by the driver",
                         "readlines(hint) may ignore the hint (PEP 3333)"]
+
+
+def worker_level(ctx, traces, metas):
+    from drivers import conn as cdrv
+    rng = ctx.rng
+    n = 0
+    for kind in ("gthread", "async"):
+        for framing in ("len", "chunked"):
+            for blen in (100, 1500, 3000, 20000):
+                for k in (0, 10, None):
+                    for early in (0, 1, 1024, 1100, blen):
+                        if early > blen or (ctx.quick and rng.random() < 0.4):
+                            continue
+                        body, nls = drv.make_body(rng, blen, "few")
+                        stream = drv.frame(body, framing, layouts(rng, blen)[-1] if framing == "chunked" else [blen])
+                        follower = b"GET /next HTTP/1.1\r\nHost: h\r\nX-Mark: m%d\r\n\r\n" % n
+                        headlen = stream.find(b"\r\n\r\n") + 4
+                        cut = min(len(stream), headlen + early)
+                        got = []
+                        seen = []
+
+                        def app(environ, start_response, k=k, got=got, seen=seen):
+                            seen.append((environ.get("RAW_URI"), environ.get("HTTP_X_MARK")))
+                            if environ.get("RAW_URI") == "/b":
+                                got.append(environ["wsgi.input"].read() if k is None else environ["wsgi.input"].read(k))
+                            start_response("200 OK", [("Content-Length", "2")])
+                            return [b"ok"]
+                        cfg = cdrv.make_cfg(keepalive=2)
+                        segs = [stream[:cut], stream[cut:] + follower] if cut < len(stream) else [stream, follower]
+                        r = cdrv.serve(kind, cfg, segs, app, eof_dispatch=True)
+                        piece = got[0] if got else b""
+                        want = len(body) if k is None else min(k, len(body))
+                        ev = [{"e": "call", "op": "read", "n": -1 if k is None else k, "len": len(piece),
+                               "contig": piece == body[:len(piece)]}]
+                        ok_next = seen == [("/b", None), ("/next", "m%d" % n)]
+                        ev.append({"e": "stop", "next_start": len(stream) if ok_next else -3, "expect_next": len(stream)})
+                        traces.append({"blen": blen, "nls": nls, "ev": ev})
+                        metas.append({"kind": "worker:" + kind, "blen": blen, "framing": framing, "prog": [("read", k)],
+                                      "early": early, "seen": seen[:4], "wire": r.wire[:80].decode("latin-1"), "escaped": r.escaped})
+                        n += 1
+    ctx.coverage["worker_level_runs"] = n
 
 
 def replay(ctx, data):
